@@ -97,7 +97,7 @@ class TimeWorld:
     props = ('C19',)
     levels = {'C19': 'exploration'}
     chunk = 400
-    budget = {'quick': dict(runs=24000, wall=40.0), 'thorough': dict(runs=1200000, wall=900.0)}
+    budget = {'quick': dict(runs=24000, wall=180.0), 'thorough': dict(runs=1200000, wall=900.0)}
     time_unit = 'sum of |clock jumps| on the simulated param.Time clock (abstract time units)'
     state_measure = 'distinct (time, context depth, cache-hit?) triples at reads'
     components = {'real': ['param.Time (clock, context manager, iteration)', 'param.Dynamic/Number time-keyed cache, inspect_value, '
